@@ -1404,11 +1404,12 @@ class ThirdCoreHexToFullCoreChanger(GeometryChanger):
 
             # change the central assembly params back to 1/3
             a = r.core.getAssemblyWithStringLocation("001-001")
-            runLog.extra(
-                f"Modifying parameters in central assembly {a} to revert from full to 1/3 core"
-            )
-            for b in a:
-                self._scaleBlockVolIntegratedParams(b, "down")
+            if a is not None:
+                runLog.extra(
+                    f"Modifying parameters in central assembly {a} to revert from full to 1/3 core"
+                )
+                for b in a:
+                    self._scaleBlockVolIntegratedParams(b, "down")
         self.reset()
 
 
